@@ -1,6 +1,7 @@
 /* h_list.c — C02: every list class is the same abstract sequence (incl. iterators).
  * E1 over the list interface for array, linked_list and dlinked_list against one reference
  * sequence with identities and NULL holes; white-box link invariants per class. */
+#include <sys/resource.h>
 #include "hcommon.h"
 
 #define SMAX 12
@@ -234,6 +235,11 @@ static void probe(void *vs)
         if ((c ? 1 : 0) != (at >= 0)) FAIL(site("contains"), "model:return", sh, "contains(%c)=%d", LAB[x], (int) c);
         SPIF_OBJ_DEL(p);
     }
+    /* no element is asked for: nothing is found and nothing is contained, placeholders or not (at runtime level 0; at higher levels the refusal is loud) */
+    if (libast_debug_level == 0) {
+        if (SPIF_LIST_FIND(l, (spif_obj_t) NULL)) FAIL(site("find"), "model:return", "NULL key", "find(NULL) returned an element");
+        if (SPIF_LIST_CONTAINS(l, (spif_obj_t) NULL)) FAIL(site("contains"), "model:return", "NULL key", "contains(NULL) is TRUE (the list holds %d elements)", n);
+    }
     /* the same questions asked with a stored element itself as the key (the object get(i) hands out): the answer is still the FIRST equal element */
     for (int i = 0; i < n; i++) {
         if (!s->e[i]) continue;
@@ -370,7 +376,7 @@ static void big_case(uint64_t idx, void *ctx)
 }
 /* ---- a very long list (400000 elements, built by the cheap operation of each class), duplicated, spot-checked and deleted: anything
  * that uses stack or time in proportion to the length per element shows here; run in the unoptimised plain build */
-static void huge_desc(uint64_t idx, void *ctx, char *b, size_t n) { (void) ctx; snprintf(b, n, "%s list of 400000 elements: dup, count, five positions, delete both", CN[idx % 3]); }
+static void huge_desc(uint64_t idx, void *ctx, char *b, size_t n) { (void) ctx; snprintf(b, n, "%s list of 400000 elements: dup, count, five positions, reverse twice, index/contains of the last element, to_array, iterator walk, delete both", CN[idx % 3]); }
 static void huge_case(uint64_t idx, void *ctx)
 {
     const int n = 400000; (void) ctx; CLS = (int) (idx % 3);
@@ -386,6 +392,17 @@ static void huge_case(uint64_t idx, void *ctx)
             if (!g || g == o || !SPIF_OBJ_IS_STR(g) || strcmp((char *) SPIF_STR(g)->s, t)) { FAIL(site("dup"), "model:element", "400000 elements", "position %d of the copy is not an equal distinct copy", pos[k]); break; } }
         SPIF_LIST_DEL(d);
     }
+    /* every whole-list operation on the long list: reverse (twice), index and contains of the last element, to_array, an iterator walk */
+    { struct rlimit rl; if (!getrlimit(RLIMIT_STACK, &rl) && (rl.rlim_cur == RLIM_INFINITY || rl.rlim_cur > (8u << 20))) { rl.rlim_cur = 8u << 20; setrlimit(RLIMIT_STACK, &rl); } }       /* the usual 8 MiB, whatever the caller's limit */
+    if (!SPIF_LIST_REVERSE(l)) FAIL(site("reverse"), "model:return", "400000 elements", "reverse returned FALSE");
+    { spif_obj_t g = SPIF_LIST_GET(l, 0); snprintf(t, sizeof t, "e%06d", n - 1); if (!g || strcmp((char *) SPIF_STR(g)->s, t)) FAIL(site("reverse"), "model:element", "400000 elements", "the first element after reverse is not the former last one"); }
+    SPIF_LIST_REVERSE(l);
+    { snprintf(t, sizeof t, "e%06d", n - 1); spif_obj_t p = SPIF_OBJ(spif_str_new_from_ptr((spif_charptr_t) t));
+      if ((int) SPIF_LIST_INDEX(l, p) != n - 1) FAIL(site("index"), "model:return", "400000 elements", "index of the last element is %d", (int) SPIF_LIST_INDEX(l, p));
+      if (!SPIF_LIST_CONTAINS(l, p)) FAIL(site("contains"), "model:return", "400000 elements", "contains(last element) is FALSE");
+      SPIF_OBJ_DEL(p); }
+    { spif_obj_t *a = SPIF_LIST_TO_ARRAY(l); if (!a || a[n - 1] != SPIF_LIST_GET(l, n - 1)) FAIL(site("to_array"), "model:order", "400000 elements", "to_array's last entry is not the last element"); if (a) free(a); }
+    { spif_iterator_t it = SPIF_LIST_ITERATOR(l); int k = 0; while (it && k <= n && SPIF_ITERATOR_HAS_NEXT(it)) { (void) SPIF_ITERATOR_NEXT(it); k++; } if (it) SPIF_ITERATOR_DEL(it); if (k != n) FAIL(site("iterator"), "model:count", "400000 elements", "the iterator yields %d elements", k); }
     SPIF_LIST_DEL(l);
     mc_nontrivial();
 }
